@@ -217,8 +217,15 @@ def e2e(run, stream, items, scratch, need_syntax=None):
         with open(p, "wb") as f:
             f.write(data)
         paths.append(p)
+    # in batches: once a stream has shown several failing inputs the rest adds nothing but time
+    # (a broken tree can make every run burn its CPU limit)
+    results = []
     with ThreadPoolExecutor(max_workers=max(2, vlib.NPROC // 2)) as ex:
-        results = list(ex.map(lambda a: run_binary(a[0], a[1][2], a[1][3]), zip(paths, items)))
+        for b in range(0, len(items), 64):
+            results += list(ex.map(lambda a: run_binary(a[0], a[1][2], a[1][3]), zip(paths[b:b + 64], items[b:b + 64])))
+            if sum(1 for r in results if verdict(r) is not None) >= 6:
+                run.notes.append("%s: stopped after %d of %d runs (6 failing inputs found)" % (stream, len(results), len(items)))
+                break
     for (name, data, lang, opt), res in zip(items, results):
         bad = verdict(res)
         if bad is None and name in need_syntax and not (res["ids"] & {"syntaxError", "unknownMacro", "preprocessorErrorDirective", "internalAstError", "cppcheckError", "internalError"}):
@@ -270,15 +277,16 @@ def corpus():
     return out
 
 
-def run_guarded(cmd, lines, per_case_s=90):
+def run_guarded(cmd, lines, per_case_s=90, max_hangs=5):
     """one output line per input line; a case on which the process hangs (no answer within
     per_case_s) or dies is answered "!hang" / "!died rc" and the process is restarted on the
-    next case"""
+    next case; after max_hangs hangs the rest is not run (the answer list is then shorter)"""
     import select
     import threading
     out = []
     start = 0
-    while start < len(lines):
+    hangs = 0
+    while start < len(lines) and hangs < max_hangs:
         p = subprocess.Popen(cmd, stdin=subprocess.PIPE, stdout=subprocess.PIPE, stderr=subprocess.DEVNULL, bufsize=0)
         chunk = lines[start:start + 400]      # a restart re-sends only a small window
 
@@ -303,6 +311,7 @@ def run_guarded(cmd, lines, per_case_s=90):
                 p.kill()
                 p.wait()
                 out.append("!hang")
+                hangs += 1
                 break
             data = os.read(fd, 65536)
             if not data:
